@@ -25,8 +25,8 @@ from pathlib import Path
 from typing import Any, Callable, Dict, Iterable, List, Optional, Tuple
 
 VERIF_DIR = Path(__file__).resolve().parent.parent
-EVIDENCE_DIR = VERIF_DIR / "evidence"
-REPLAY_DIR = VERIF_DIR / "replays"
+EVIDENCE_DIR = Path(os.environ.get("ODCSIM_EVIDENCE_DIR") or VERIF_DIR / "evidence")
+REPLAY_DIR = Path(os.environ.get("ODCSIM_REPLAY_DIR") or VERIF_DIR / "replays")
 KNOWN_FINDINGS_FILE = VERIF_DIR / "known_findings.json"
 
 EXIT_OK, EXIT_VIOLATION, EXIT_HARNESS = 0, 1, 2
